@@ -317,10 +317,14 @@ enum IOp {
     FitW(u32),
     FitH(u32),
     Color([u8; 4]),
+    Background([u8; 4]),
     Png(usize),
 }
 
-const IMAGE_ALPHABET: [IOp; 7] = [IOp::Shape(1), IOp::Margin(1), IOp::FitW(84), IOp::FitH(100), IOp::Color([0, 128, 0, 255]), IOp::Png(0), IOp::Png(1)];
+// Png(2) renders a third symbol with the same pixel dimensions as Png(0) but other modules: a buffer kept inside the
+// renderer and reused without clearing only shows when two renders have the same size, and only through pixels the
+// second render leaves untouched (a transparent background)
+const IMAGE_ALPHABET: [IOp; 9] = [IOp::Shape(1), IOp::Margin(1), IOp::FitW(84), IOp::FitH(100), IOp::Color([0, 128, 0, 255]), IOp::Background([0, 0, 0, 0]), IOp::Png(0), IOp::Png(1), IOp::Png(2)];
 
 #[derive(Clone, Debug, Default, PartialEq, Eq, Hash)]
 struct IModel {
@@ -329,6 +333,7 @@ struct IModel {
     fw: Option<u32>,
     fh: Option<u32>,
     color: Option<[u8; 4]>,
+    background: Option<[u8; 4]>,
 }
 
 impl IModel {
@@ -349,13 +354,16 @@ impl IModel {
         if let Some(c) = self.color {
             b.module_color(c);
         }
+        if let Some(c) = self.background {
+            b.background_color(c);
+        }
         b
     }
 }
 
 fn render_symbols() -> Vec<(PCase, Box<QRCode>)> {
     let mut v = vec![];
-    for (input, o) in [(&b"HELLO"[..], Opts { mode: None, ecl: Some(0), version: Some(1), mask: None }), (&b"https://example.com/c14"[..], Opts { mode: None, ecl: Some(1), version: Some(2), mask: None })] {
+    for (input, o) in [(&b"HELLO"[..], Opts { mode: None, ecl: Some(0), version: Some(1), mask: None }), (&b"https://example.com/c14"[..], Opts { mode: None, ecl: Some(1), version: Some(2), mask: None }), (&b"WORLD 2"[..], Opts { mode: None, ecl: Some(0), version: Some(1), mask: None })] {
         if let Outcome::Ok(q) = subject::build(input, &o) {
             v.push((PCase { input: input.to_vec(), opts: o, render: Render::None }, q));
         }
@@ -637,7 +645,7 @@ pub fn run(ctx: &Ctx) -> Collector {
     // ---- (b) renderer histories
     let t1 = std::time::Instant::now();
     let syms = render_symbols();
-    if syms.len() != 2 {
+    if syms.len() != 3 {
         col.machinery_error("render symbols".into());
         return col;
     }
@@ -768,6 +776,10 @@ pub fn run(ctx: &Ctx) -> Collector {
                     IOp::Color(c) => {
                         b.module_color(c);
                         m.color = Some(c);
+                    }
+                    IOp::Background(c) => {
+                        b.background_color(c);
+                        m.background = Some(c);
                     }
                     IOp::Png(qi) => {
                         let got = b.to_bytes(&syms[qi].1).unwrap_or_default();
